@@ -54,11 +54,27 @@ GF == [
   rk  |-> [kind |-> "vmap", callee |-> "bF", n |-> 2, bcast |-> TRUE, kwarg |-> TRUE],
   frk |-> [kind |-> "fn", sites |-> << Site("a", "d1", Arg), SiteKw("r", "rk", Val("a")), Site("y", "d0", <<"sum", Val("r")>>) >>,
            ret |-> <<"sum", Val("r")>>],
+  \* a Vmap built with the default in_axes (a bare int 0: every argument mapped)
+  vi  |-> [kind |-> "vmap", callee |-> "d0", n |-> 2, bcast |-> FALSE, intaxes |-> TRUE],
+  fvi |-> [kind |-> "fn", sites |-> << Site("a", "d1", Arg), Site("v", "vi", <<"seq", Val("a"), Add(Val("a"), Cn(2))>>) >>,
+           ret |-> <<"sum", Val("v")>>],
+  \* a Cond whose branches are Vmaps (scalar condition shared by the lanes)
+  rd0 |-> [kind |-> "vmap", callee |-> "d0", n |-> 2, bcast |-> TRUE],
+  cvr |-> [kind |-> "cond", t |-> "rd", f |-> "rd0"],
+  fcv |-> [kind |-> "fn", sites |-> << Site("c", "cvr", <<"pair", <<"eq", Arg, Cn(1)>>, Arg>>), Site("y", "d0", <<"sum", Val("c")>>) >>,
+           ret |-> <<"sum", Val("c")>>],
   \* scan: step(carry, x) = z ~ d0(carry + x); returns (z, z + 1)
   st  |-> [kind |-> "fn", sites |-> << Site("z", "d0", Add(<<"fst", Arg>>, <<"snd", Arg>>)) >>,
            ret |-> <<"pair", Val("z"), Add(Val("z"), Cn(1))>>],
   sc  |-> [kind |-> "scan", callee |-> "st", n |-> 2],
   fs  |-> [kind |-> "fn", sites |-> << Site("s", "sc", <<"pair", Arg, <<"seq", Cn(0), Cn(1)>>>>),
+                                        Site("y", "d1", <<"fst", Val("s")>>) >>,
+           ret |-> Add(Val("y"), <<"sum", <<"snd", Val("s")>>>>)],
+  \* a scan whose carry and outputs depend on its ARGUMENTS as well (not only on its own choices), fed by an earlier choice
+  st2 |-> [kind |-> "fn", sites |-> << Site("z", "d0", Add(<<"fst", Arg>>, <<"snd", Arg>>)) >>,
+           ret |-> <<"pair", Add(Val("z"), <<"fst", Arg>>), Add(Val("z"), <<"snd", Arg>>)>>],
+  sc2 |-> [kind |-> "scan", callee |-> "st2", n |-> 2],
+  fs2 |-> [kind |-> "fn", sites |-> << Site("a", "d1", Arg), Site("s", "sc2", <<"pair", Val("a"), <<"seq", Cn(0), Cn(1)>>>>),
                                         Site("y", "d1", <<"fst", Val("s")>>) >>,
            ret |-> Add(Val("y"), <<"sum", <<"snd", Val("s")>>>>)],
   \* cond with shared addresses in the branches; the condition depends on an earlier choice
@@ -79,6 +95,12 @@ GF == [
   fvc |-> [kind |-> "fn", sites |-> << Site("z", "d0", Arg),
                                         Site("v", "vc", <<"seq", <<"pair", <<"eq", Val("z"), Cn(0)>>, Val("z")>>, <<"pair", <<"eq", Val("z"), Cn(1)>>, Add(Val("z"), Cn(1))>>>>) >>,
            ret |-> <<"sum", Val("v")>>],
+  \* a Cond whose branches call another function at the SAME nested address (shared address below the top level)
+  gT  |-> [kind |-> "fn", sites |-> << Site("s", "bT", Arg) >>, ret |-> Val("s")],
+  gF  |-> [kind |-> "fn", sites |-> << Site("s", "bF", Arg) >>, ret |-> Val("s")],
+  cg  |-> [kind |-> "cond", t |-> "gT", f |-> "gF"],
+  fcg |-> [kind |-> "fn", sites |-> << Site("c", "cg", <<"pair", <<"eq", Arg, Cn(0)>>, Arg>>), Site("y", "d1", Val("c")) >>,
+           ret |-> Val("y")],
   \* cond directly over two distributions
   cdd |-> [kind |-> "cond", t |-> "d0", f |-> "d1"],
   fd  |-> [kind |-> "fn", sites |-> << Site("c", "cdd", <<"pair", <<"eq", Arg, Cn(1)>>, Arg>>), Site("y", "d0", Val("c")) >>,
